@@ -157,6 +157,9 @@ pub fn fidx(name: &str) -> Option<usize> {
 pub enum CS {
     Null,
     Bad,
+    /// text with ONE ill-formed byte (0xF0, the start of a sequence that never comes) between the two parts,
+    /// e.g. inside a string literal of an otherwise well-formed document: `!hex(before).hex(after)`
+    BadIn(String, String),
     Ok(String),
 }
 
@@ -243,6 +246,7 @@ pub fn show_arg(a: &A) -> String {
         A::SP(p) => opt_tok('$', p),
         A::C(CS::Null) => "~".into(),
         A::C(CS::Bad) => "!".into(),
+        A::C(CS::BadIn(a, b)) => format!("!{}.{}", vx::h(a), vx::h(b)),
         A::C(CS::Ok(s)) => vx::h(s),
         A::O(b) | A::B(b) => if *b { "1".into() } else { "0".into() },
         A::N(n) => n.to_string(),
@@ -277,6 +281,14 @@ pub fn parse_history(input: &str) -> Option<Vec<Call>> {
                     A::C(match t {
                         "~" => CS::Null,
                         "!" => CS::Bad,
+                        _ if t.starts_with('!') => {
+                            let (a, b) = t[1..].split_once('.')?;
+                            let (a, b) = (vx::unh(a)?, vx::unh(b)?);
+                            if a.contains('\0') || b.contains('\0') {
+                                return None;
+                            }
+                            CS::BadIn(a, b)
+                        }
                         _ => {
                             let s = vx::unh(t)?;
                             if s.contains('\0') {
